@@ -47,8 +47,60 @@ fn structured64() -> Vec<u64> {
     v
 }
 
+// ---- reference model of the 64-bit mix (Thomas Wang), used only to GENERATE adversarial inputs: values that are structured
+// at an intermediate stage of the pipeline. The verdict never depends on it (the oracle is the round trip identity).
+fn inv_odd(a: u64) -> u64 {
+    let mut x = a; // Newton iteration for the inverse modulo 2^64
+    for _ in 0..6 {
+        x = x.wrapping_mul(2u64.wrapping_sub(a.wrapping_mul(x)));
+    }
+    x
+}
+fn unxorshift(mut k: u64, s: u32) -> u64 {
+    let mut sh = s;
+    while sh < 64 {
+        k ^= k >> sh;
+        sh *= 2;
+    }
+    k
+}
+fn ref_forward(stage: usize, k: u64) -> u64 {
+    match stage {
+        1 => (!k).wrapping_add(k << 21),
+        2 => k ^ (k >> 24),
+        3 => k.wrapping_mul(265),
+        4 => k ^ (k >> 14),
+        5 => k.wrapping_mul(21),
+        6 => k ^ (k >> 28),
+        _ => k.wrapping_add(k << 31),
+    }
+}
+fn ref_backward(stage: usize, k: u64) -> u64 {
+    match stage {
+        1 => k.wrapping_add(1).wrapping_mul(inv_odd((1u64 << 21) - 1)),
+        2 => unxorshift(k, 24),
+        3 => k.wrapping_mul(inv_odd(265)),
+        4 => unxorshift(k, 14),
+        5 => k.wrapping_mul(inv_odd(21)),
+        6 => unxorshift(k, 28),
+        _ => k.wrapping_mul(inv_odd((1u64 << 31) + 1)),
+    }
+}
+/// v is the value between stage `after` and stage `after + 1` (after = 0: the input, 7: the output)
+fn from_intermediate(after: usize, v: u64) -> (u64, u64) {
+    let mut x = v;
+    for st in (1..=after).rev() {
+        x = ref_backward(st, x);
+    }
+    let mut y = v;
+    for st in (after + 1)..=7 {
+        y = ref_forward(st, y);
+    }
+    (x, y)
+}
+
 pub fn run(rep: &mut Report) {
-    rep.rule = "32-bit pair: every x in 0..2^32, both compositions (exhaustive). 64-bit pair: every value of every 16/20(/24)-bit window at every offset over random backgrounds; structured words (0, ~0, all 1/2/3-bit patterns and complements, 2^k±{0,1,2}, masks, byte-replicated words, carry chains at each shift amount) plus N random words, both compositions; a case is non-trivial when distinct (structured words deduplicated, random words counted as drawn: collisions among < 2^37 draws from 2^64 are negligible, 32-bit space enumerated once)".into();
+    rep.rule = "32-bit pair: every x in 0..2^32, both compositions (exhaustive). 64-bit pair: all values below 2^22 (2^28 thorough) and sparse patterns placed at each of the 8 intermediate stages of a reference pipeline and pulled back / pushed forward to inputs and outputs; every value of every 16/20(/24)-bit window at every offset over random backgrounds; structured words (0, ~0, all 1/2/3-bit patterns and complements, 2^k±{0,1,2}, masks, byte-replicated words, carry chains at each shift amount) plus N random words, both compositions; a case is non-trivial when distinct (structured words deduplicated, random words counted as drawn: collisions among < 2^37 draws from 2^64 are negligible, 32-bit space enumerated once)".into();
     // ---- 32 bit, exhaustive
     if rep.want("h32") {
         let nblocks = 1u64 << 12;
@@ -139,6 +191,47 @@ pub fn run(rep: &mut Report) {
         }
         rep.evaluations += total;
         rep.extra.insert("h64_window_enumeration".into(), json!("every value of every contiguous w-bit field at every offset, over random backgrounds: exhaustive over (offset, field value) for the listed widths"));
+    }
+    // ---- 64 bit: inputs/outputs whose INTERMEDIATE value at one of the 8 pipeline stages is structured (all small values,
+    // sparse bit patterns): conditions on an internal field are not reachable by random or boundary inputs
+    if rep.want("h64i") {
+        let small_bits: u32 = rep.tier.pick(22, 28);
+        let mut st = structured64();
+        st.sort_unstable();
+        st.dedup();
+        let mut total = 0u64;
+        for after in 0..=7usize {
+            let nblocks = 1u64 << (small_bits - 16);
+            let bad: Vec<(u64, u64, u64, u64)> = (0..nblocks + 1)
+                .into_par_iter()
+                .flat_map_iter(|b| {
+                    let vals: Box<dyn Iterator<Item = u64>> = if b < nblocks { Box::new((b << 16)..((b + 1) << 16)) } else { Box::new(st.clone().into_iter()) };
+                    let mut out = Vec::new();
+                    for v in vals {
+                        for w in [v, !v, v << 20, v << 36] {
+                            let (x, y) = from_intermediate(after, w);
+                            let a = int64_hash_inverse(int64_hash(x));
+                            let c = int64_hash(int64_hash_inverse(y));
+                            if (a != x || c != y) && out.len() < 2 {
+                                out.push((x, a, y, c));
+                            }
+                        }
+                    }
+                    out
+                })
+                .collect();
+            let n = 4 * ((1u64 << small_bits) + st.len() as u64);
+            total += n;
+            for (x, a, y, c) in bad.iter().take(2) {
+                rep.violation("C19/h64", "h64i", format!("int64 (value structured after stage {} of the reference pipeline): x={:#x} inverse(hash(x))={:#x}; y={:#x} hash(inverse(y))={:#x}", after, x, a, y, c), json!({"x": x, "y": y, "structured_after_stage": after}));
+            }
+        }
+        rep.evaluations += total;
+        rep.count("h64.intermediate_structured_values", total);
+        // cross-check of the generator itself (not a verdict): the reference pipeline agrees with the crate on a sample
+        let probe = 0x0123_4567_89ab_cdefu64;
+        let (x, y) = from_intermediate(0, probe);
+        rep.extra.insert("h64_reference_pipeline_matches_crate_on_probe".into(), json!(x == probe && y == int64_hash(probe)));
     }
     // ---- 64 bit random
     if rep.want("h64r") {
